@@ -31,6 +31,10 @@ Picked(S) == LET L == SetToSeq(S) st == atoi(IOEnv.TREE_STRIDE) off == atoi(IOEn
              IN {L[j] : j \in {i \in 1..Len(L) : i % st = off}}
 TreesPick2 == Picked(Trees2)
 TreesPick3 == Picked(TreesGen)
+\* histories are generated on trees whose backup is not empty
+SelNonEmpty(tr) == \E j \in 1..Len(tr.files) : tr.files[j].ev /\ tr.files[j].dir # 1
+                                                  /\ (tr.btasks = <<>> \/ tr.files[j].tk \in Range(tr.btasks))
+TreesPickH == Picked({tr \in TreesGen : SelNonEmpty(tr)})
 \* one JSON line per finished behaviour (generation runs; hist is part of the state there)
 EmitCrash == (pc = "idle" /\ creates = MaxCreate) =>
                  PrintT("@@EMIT@@" \o ToJson([tree |-> tree, hist |-> hist]))
